@@ -275,3 +275,73 @@ func ruleAppendOpenTrims(r *Run) {
 	}
 	r.check(n >= 2, "logs:append-opens", fmt.Sprintf("%d opens with O_APPEND in the log stores", n), "fewer than the two log stores confirmed by reading: rule needs review", "-")
 }
+
+// ---------------------------------------------------------------------------------------------
+// R16.14 — one spelling per body id: the store key of a neuron annotation is built from the
+// canonical decimal form of the parsed id (strconv.FormatUint), in the key constructor or at every
+// call site of it, because the in-memory database addresses the annotation by the parsed number.
+
+func init() {
+	register(ruleDef{ID: "R16.14", Prop: "C16", Tier: "quick", Floor: 2,
+		Title: "one spelling per body id: the constructor of neuronjson's annotation store key (the function that hands storage.NewTKey the annotation key class and the key bytes) builds the bytes from strconv.FormatUint of the parsed id — there, or at every static call site — since the in-memory head addresses annotations by the parsed number",
+		Fn:    ruleCanonicalAnnotationKey})
+}
+
+func ruleCanonicalAnnotationKey(r *Run) {
+	w := r.W
+	canonical := func(v ssa.Value) bool {
+		for d := range dataDeps(v) {
+			if c, ok := d.(*ssa.Call); ok {
+				if callee := c.Call.StaticCallee(); callee != nil && callee.Pkg != nil && callee.Pkg.Pkg.Path() == "strconv" && (callee.Name() == "FormatUint" || callee.Name() == "Itoa" || callee.Name() == "FormatInt") {
+					return true
+				}
+			}
+		}
+		return false
+	}
+	n := 0
+	for _, f := range w.RepoFuncs {
+		if relPkg(pkgPathOf(f)) != "datatype/neuronjson" || len(f.Blocks) == 0 || f.Parent() != nil || strings.HasSuffix(w.fposFile(f), "_test.go") {
+			continue
+		}
+		for _, c := range calls(f) {
+			callee := staticCallee(c)
+			if callee == nil || callee.Name() != "NewTKey" || relPkg(pkgPathOf(callee)) != "storage" || len(c.Common().Args) != 2 {
+				continue
+			}
+			// key bytes that come from a string parameter of the constructor
+			fromParam := -1
+			for d := range dataDeps(c.Common().Args[1]) {
+				if p, ok := d.(*ssa.Parameter); ok {
+					if b, ok := p.Type().Underlying().(*types.Basic); ok && b.Kind() == types.String {
+						for i, q := range f.Params {
+							if q == p {
+								fromParam = i
+							}
+						}
+					}
+				}
+			}
+			if fromParam < 0 {
+				continue
+			}
+			n++
+			ok := canonical(c.Common().Args[1])
+			how := "the constructor formats the parsed id"
+			if !ok {
+				sites := callSitesOf(w)[f]
+				ok = len(sites) > 0
+				for _, s := range sites {
+					sc, isCall := s.(ssa.CallInstruction)
+					if !isCall || fromParam >= len(sc.Common().Args) || !canonical(sc.Common().Args[fromParam]) {
+						ok = false
+					}
+				}
+				how = "every call site passes a formatted id"
+			}
+			r.check(ok, fname(f)+":annotation-key:canonical", how,
+				"the store key of an annotation is the key string as the client spelled it: \"007\" names body 7 in the in-memory head and another key in the store, so a delete or update through such a spelling changes the head's answers and not the store's (or creates a second stored record for the body)", w.pos(c.Pos()))
+		}
+	}
+	r.check(n >= 1, "neuronjson:annotation-key-constructors", fmt.Sprintf("%d constructors build a store key from a string parameter", n), "none found: rule needs review", "-")
+}
